@@ -39,6 +39,7 @@ namespace ref4648
     inline bytes encode(const bytes& in)
     {
         bytes out;
+        out.reserve(4 * ((in.size() + 2) / 3));
         std::size_t n = in.size(), i = 0;
         for (; i + 3 <= n; i += 3)
         {
@@ -83,6 +84,7 @@ namespace ref4648
         std::size_t k = leading_run(in);
         std::size_t nbytes = (6 * k) / 8;
         bytes out;
+        out.reserve(nbytes);
         for (std::size_t j = 0; j < nbytes; ++j)
         {
             unsigned v = 0;
